@@ -790,8 +790,10 @@ pub fn run(ctx: &Ctx, replay: Option<&J>) -> i32 {
 
     // ---- word and symbol spellings evaluate identically
     for (w, s) in [("and", "&&"), ("or", "||")] {
-        for a in ["true", "false", "1", "null", "[true, false]"] {
-            for b in ["true", "false", "1", "null", "[false, true]"] {
+        for a in ["true", "false", "1", "null", "[true, false]", "nope", "(1 + \"a\")"] {
+            // right operands include expressions whose evaluation itself fails: both spellings
+            // must agree on whether they are evaluated at all
+            for b in ["true", "false", "1", "null", "[false, true]", "nope", "(1 + \"a\")", "head(3)"] {
                 let o1 = eval_fresh(&format!("{} {} {}", a, w, b));
                 let o2 = eval_fresh(&format!("{} {} {}", a, s, b));
                 ctx.count(2);
